@@ -360,6 +360,17 @@ def deviations(t):
                     c = t.copy()
                     c.at(path).kids.insert(idx, mk())
                     yield f"{iname}@{where}:{idx}", c
+    # an EXTRA child that renders as nothing (alignment marks, space, phantom, empty row) among the children of an element whose children
+    # have fixed roles: the input has one child too many - it is refused, or the extra child goes and the arity is right
+    for path, node in list(t.walk()):
+        if node.tag in ("mfrac", "mroot", "msub", "msup", "msubsup", "munder", "mover", "munderover", "mmultiscripts"):
+            where = "/".join(map(str, path)) or "root"
+            for idx in range(len(node.kids) + 1):
+                for iname, mk in (("malignmark", lambda: T("malignmark")), ("maligngroup", lambda: T("maligngroup")), ("mspace", lambda: T("mspace", width="1em")),
+                                  ("mphantom", lambda: el("mphantom", mi("h"))), ("empty-mrow", lambda: T("mrow"))):
+                    c = t.copy()
+                    c.at(path).kids.insert(idx, mk())
+                    yield f"extra-{iname}@{where}:{idx}", c
     # one deviation = the same wrapper around *every* child of one node (what a converter emits for
     # \frac{\color{red}a}{\color{red}b})
     for path, node in list(t.walk()):
